@@ -604,6 +604,106 @@ def rule_ef(ck, R, eng, ps):
                    'first index >= start whose address is outside the area, else the entry count' if bad is None else bad)
 
 
+_GATE_TESTS = {}
+
+
+def gate_tests(R):
+    """What reg_entry_is_in_memory demands of the area it links an entry into, read off its own accepting paths: the
+    predicate helpers it calls on (area, entry) resp. (area, entry->address) whose answer has to be non-zero before the
+    link stores.  -> frozenset of helper names (ra_reg_is_part_of is looked through to ra_addr_is_part_of), or None."""
+    if 'v' in _GATE_TESTS:
+        return _GATE_TESTS['v']
+    out = None
+    g = sym.Engine(R.u, sizeof=R.so, inline={'ra_reg_is_part_of'})
+    try:
+        gp = g.paths('reg_entry_is_in_memory')
+    except Exception:      # noqa: BLE001
+        gp = None
+    for p in gp or []:
+        if p.end != 'return' or p.ret is None or p.ret == C(0):
+            continue
+        if not [st for st in p.stores() if st.name[0] == 'f' and st.name[2] in ('area', 'offset')]:
+            continue
+        need = set()
+        for e in p.effects:
+            if e.kind == 'call' and e.name.startswith('ra_') and any(c[0] == 'cmp' and c[1] == '!=' and strip_cast(c[2]) == e.result and c[3] == C(0)
+                                                                    for c in p.cond_terms()):
+                need.add(e.name)
+        out = need if out is None else (out & need)
+    _GATE_TESTS['v'] = frozenset(out) if out else None
+    return _GATE_TESTS['v']
+
+
+def _assigned_values(u, fn, var):
+    """every value a local of `fn` is given (initialiser and assignments), as AST nodes"""
+    vals = []
+    for n in cast.walk(u.functions[fn]):
+        if n.get('kind') == 'VarDecl' and n.get('name') == var and cast.inner(n):
+            vals.append(cast.inner(n)[-1])
+        if n.get('kind') == 'BinaryOperator' and n.get('opcode') == '=':
+            l, r = cast.inner(n)
+            l = cast.strip(l)
+            if l.get('kind') == 'DeclRefExpr' and (l.get('referencedDecl') or {}).get('name') == var:
+                vals.append(r)
+    return vals
+
+
+def second_gate(R, eng, p, st, ent):
+    """A linking route of register_init beside reg_entry_is_in_memory (e.g. the area of the preceding entry, remembered
+    in a local) is as good as the gate when it asks the same questions of the area it links into: every test the gate
+    function demands (gate_tests) was asked of (that area, this entry) and answered yes before the store; the offset is
+    address - that area's base; and the area is one of the table's - the local it comes from is only ever given a null
+    pointer or the `area` field of an entry (which only the guarded link stores write)."""
+    need = gate_tests(R)
+    if not need:
+        return False
+    k = st.name
+    # the area this path links the entry into
+    area = None
+    for s2 in p.stores():
+        if s2.name[0] == 'f' and s2.name[2] == 'area' and strip_cast(s2.name[1]) == ent:
+            area = strip_cast(s2.args[0])
+    if area is None:
+        return False
+    if k[2] == 'offset':
+        v = strip_cast(st.args[0])
+        want = [('-', ('f', ent, 'address'), ('f', area, 'base'))]
+        if not (v in want or (v[0] == '-' and len(v) == 3 and strip_cast(v[1]) == ('f', ent, 'address') and strip_cast(v[2]) == ('f', area, 'base'))):
+            return False
+    asked = set()
+    for e in p.effects:
+        if e is st:
+            break
+        if e.kind == 'call' and e.name in need and len(e.args) == 2 and strip_cast(e.args[0]) == area \
+                and strip_cast(e.args[1]) in (ent, ('f', ent, 'address')) \
+                and any(c[0] == 'cmp' and c[1] == '!=' and strip_cast(c[2]) == e.result and c[3] == C(0) for c in p.cond_terms()):
+            asked.add(e.name)
+    if asked != set(need):
+        return False
+    # provenance of the area pointer: a loop-carried local
+    name = None
+    f = fmt(area)
+    import re as _re
+    m = _re.match(r'^\?loop@\d+:([A-Za-z_][A-Za-z0-9_]*)#\d+$', f)
+    if m:
+        name = m.group(1)
+    elif area[0] == 'v':
+        name = area[1]
+    if name is None:
+        return False
+    vals = _assigned_values(R.u, 'register_init', name)
+    if not vals:
+        return False
+    for v in vals:
+        n = cast.strip_all_casts(v)
+        if n.get('kind') == 'MemberExpr' and n.get('name') == 'area' and 'RegisterEntry' in cast.qual_type(cast.inner(n)[0]):
+            continue
+        if n.get('kind') in ('GNUNullExpr', 'CXXNullPtrLiteralExpr') or (n.get('kind') == 'IntegerLiteral' and n.get('value') == '0'):
+            continue
+        return False
+    return True
+
+
 def link_gate(ck, R, eng, ps):
     """C04.d (gate): an entry is linked into an area (its `area` / `offset` fields are written) only by, or after a
     successful, reg_entry_is_in_memory(t, entry) - the one place where base <= address and address + size <= area end
@@ -627,6 +727,8 @@ def link_gate(ck, R, eng, ps):
                 passed = any(c[0] == 'cmp' and c[1] == '!=' and strip_cast(c[2]) == g.result and c[3] == C(0) for c in p.cond_terms())
                 if same and passed:
                     ok = True
+            if not ok and second_gate(R, eng, p, st, ent):
+                ok = True
             if not ok:
                 bad = bad or ('%s is written at %s on a path where reg_entry_is_in_memory has not accepted that entry ({%s}): the register is linked '
                               'without the containment test address + size <= area end' % (fmt(k), st.where(), '; '.join(fmt(c) for c in p.cond_terms()[-3:])[:200]))
@@ -703,7 +805,8 @@ def run(ck):
     scan_rule(R, 'C04.e', 'ra_first_entry_of_next', 'entries', ('v', 'start'))
     flag_bits(ck, R)
     wrap_free(R, 'C04.g', 'reg_entry_is_in_memory', inline={'ra_reg_is_part_of', 'ra_addr_is_part_of', 'ra_reg_fits_into', 'ra_find_area_by_addr'})
-    wrap_free(R, 'C04.g', 'register_init')
+    # (a second linking route of register_init computes address - base itself: the start test is looked into for it)
+    wrap_free(R, 'C04.g', 'register_init', inline={'ra_reg_is_part_of'}, summaries={'ra_addr_is_part_of'})
     ps = R.paths('register_init', 'C04.a', eng)
     if ps is not None:
         link_gate(ck, R, eng, ps)
